@@ -508,6 +508,10 @@ type vC06ProvSc struct {
 	// takes AimDelta + half the reserve to accept its ADD_PROVIDER: inside the caller's deadline, past the inner one
 	Deadline time.Duration
 	AimDelta time.Duration
+	// NewAddrs (classic provide only): the host's addresses change to this set when the lookup sends its first
+	// FIND_NODE; the records advertise the filter-passing addresses the host has when they are sent
+	NewAddrs    []string
+	AddrsChange bool
 }
 
 func vC06GenProv(c *vh.Case, optim bool) vC06ProvSc {
@@ -524,6 +528,13 @@ func vC06GenProv(c *vh.Case, optim bool) vC06ProvSc {
 	}
 	if !optim && r.Intn(12) == 0 {
 		sc.CancelAt = time.Duration(1+r.Intn(3*sc.MaxDelay+20)) * time.Millisecond
+	}
+	if !optim && sc.Broadcast && r.Intn(6) == 0 {
+		sc.AddrsChange = true
+		perm2 := r.Perm(len(vC06AddrPool))
+		for i := 0; i < r.Intn(5); i++ {
+			sc.NewAddrs = append(sc.NewAddrs, vC06AddrPool[perm2[i]])
+		}
 	}
 	if !optim && sc.Broadcast && sc.CancelAt == 0 && r.Intn(5) == 0 {
 		sc.Deadline = []time.Duration{4 * time.Second, 6 * time.Second, 9 * time.Second, 15 * time.Second, 30 * time.Second}[r.Intn(5)]
@@ -650,9 +661,23 @@ func vC06RunProvide(t *testing.T, c *vh.Case, sc vC06ProvSc) {
 	}
 	var hookMu sync.Mutex
 	firstAdd := 0
+	changed := false
 	n.S.OnEvent = func(e vsim.Event) {
 		if e.Kind != vsim.EvMessage && e.Kind != vsim.EvRequest {
 			return
+		}
+		if sc.AddrsChange && e.Type == pb.Message_FIND_NODE {
+			hookMu.Lock()
+			first := !changed
+			changed = true
+			hookMu.Unlock()
+			if first {
+				var na []ma.Multiaddr
+				for _, s := range sc.NewAddrs {
+					na = append(na, ma.StringCast(s))
+				}
+				n.H.SetAddrs(na)
+			}
 		}
 		if e.Type != pb.Message_ADD_PROVIDER {
 			return
@@ -730,6 +755,20 @@ func vC06RunProvide(t *testing.T, c *vh.Case, sc vC06ProvSc) {
 	wait()
 	synctest.Wait()
 	log := n.S.Log()
+	if sc.AddrsChange && changed {
+		// the lookup sent a FIND_NODE: every ADD_PROVIDER is sent after the change
+		var na []ma.Multiaddr
+		for _, s := range sc.NewAddrs {
+			na = append(na, ma.StringCast(s))
+		}
+		want = na
+		if f := vC06Filter(sc.Filter); f != nil {
+			want = f(na)
+		}
+		wantSet = vC06AddrSet(want)
+		c.Set("host_addrs_changed_during_lookup_to", sc.NewAddrs)
+		c.Obs("address_changes_during_lookup", 1)
+	}
 	d := vC06Derive(n, events(), key, sc.Cfg.K)
 	sends, tot := vC06Sends(log, pb.Message_ADD_PROVIDER, key)
 	c.Obs("rpcs", len(log)/2)
